@@ -1,1 +1,5 @@
-//! generated field grid and toy curves (see gen/)
+//! Generated configurations shared by the monitors: the field grid (gen/gen_fields.py), the toy
+//! curves (gen/gen_curves.py) and the registry of every configuration shipped in /repo.
+//! Generator output is committed; the generators are only run by hand.
+pub mod grid;
+pub mod shipped;
